@@ -200,6 +200,12 @@ def instances(tier):
         depth = (6 if heavy else 10) if tier == 'quick' else (10 if heavy else 16)
         inst.append(dict(label='eval[fs=%s,ff=%s,mix=%s]' % c, body=body_eval, params={'combo': c, 'n_ring': 3},
                          max_paths=400, max_depth=depth, timeout_ms=15000))
+    # other ring counts for the single-family combinations (the 120 combinations above use 3 rings)
+    for c in (('NOV', 'NOV', 'MIT'), ('MIT', 'ENG', 'MIT'), ('SE2', 'REH', 'KC-BARE'), ('CTD', 'CTD', 'CTD'), ('UCTD', 'UCTD', 'UCTD'), ('MIT', 'CTS', 'MIT')):
+        for n in ((2, 5) if tier == 'quick' else (2, 4, 5, 7, 9)):
+            heavy = c[0] in ('CTD', 'UCTD')
+            inst.append(dict(label='eval[fs=%s,ff=%s,mix=%s,rings=%d]' % (c + (n,)), body=body_eval, params={'combo': c, 'n_ring': n},
+                             max_paths=400, max_depth=(6 if heavy else 10) if tier == 'quick' else (10 if heavy else 16), timeout_ms=15000))
     for fs in ('CTD', 'UCTD'):
         for n in ((2, 3, 5) if tier == 'quick' else (2, 3, 4, 5, 7, 9, 12)):
             inst.append(dict(label='ct-gradient[fs=%s,rings=%d]' % (fs, n), body=body_gradient, params={'fs': fs, 'n_ring': n}, check_vacuity=False))
@@ -226,10 +232,10 @@ def main():
                      'combination is a path.  No path may end in KeyError/IndexError/TypeError; mass conservation and signs are '
                      'SMT queries per path.  One lifted iteration of the CTD/UCTD transition flow split from an arbitrary iterate '
                      'conserves mass (symbolic geometry, Reynolds bounds and friction constants).'),
-        bounds={'combinations': 'all 5 x 6 x 4', 'rings': 3, 'Re': '(10, 1e6)', 'fork depth': '10 (quick) / 16 decisions per path (deeper transition iterations are cut)',
+        bounds={'combinations': 'all 5 x 6 x 4', 'rings': '3; 2 and 5 (quick) / 2..9 for six single-family combinations', 'Re': '(10, 1e6)', 'fork depth': '10 (quick) / 16 decisions per path (deeper transition iterations are cut)',
                 'geometry': 'one concrete bundle for the evaluability/mass claims; fully symbolic for the iteration step'},
         outside=['equality of the pressure gradients across subchannel types and the common-gradient = bundle friction factor '
-                 'identity (need the power-law normal form of DESIGN 2.1, not built)', 'ring counts other than 3',
+                 'identity (need the power-law normal form of DESIGN 2.1, not built)', 'ring counts other than 3 for the mixed combinations (single-family combinations also run with 2 and 5 rings / 2..9)',
                  'positivity of quantities that are uninterpreted powers/logarithms (best-effort)'],
         level_assumptions=['log10 and non-integer powers are uninterpreted functions (positive for positive bases)'])
 
